@@ -1,5 +1,6 @@
 import Adc.Wire
 import Adc.Unitary
+import Adc.Symmetry
 /- Line-protocol driver: one JSON request per line on stdin, one JSON answer per line on stdout. -/
 open Lean Adc Adc.Wire
 
@@ -68,6 +69,20 @@ def handle (j : Json) : P Json := do
     match unitaryStep name t (← (← fld st "k1").getNat?) (← (← fld st "k2").getNat?) (← (← fld st "first").getBool?) with
     | none => pure (Json.mkObj [("ok", false)])
     | some t' => pure (Json.mkObj [("ok", true), ("t", jTerm t')])
+  | "permterm" =>    -- C10: apply permutation operators to a term
+    let t ← pTerm (← fld j "t")
+    let perms ← pSub (← fld j "perms")
+    match permTerm perms t with
+    | none => pure (Json.mkObj [("ok", false)])
+    | some t' => pure (Json.mkObj [("ok", true), ("t", jTerm t')])
+  | "exploit" =>     -- C10: re-expand the result of exploit_perm_sym
+    let parts ← (← arr (← fld j "parts")).toList.mapM fun p => do
+      let ops ← (← arr (← fld p "ops")).toList.mapM fun o => do
+        pure ((← pSub (← fld o "perms")), (← (← fld o "neg").getBool?))
+      pure (ops, ← pExpr (← fld p "e"))
+    match expandExploit parts with
+    | none => pure (Json.mkObj [("ok", false)])
+    | some e => pure (Json.mkObj [("ok", true), ("e", jExpr e)])
   | "ordersubs" =>   -- C08: order_substitutions
     let m ← pSub (← fld j "m")
     pure (Json.mkObj [("seq", jSub (orderSubs m))])
